@@ -20,12 +20,13 @@ import numpy as np
 
 from gridrv.oracles import numdiff as nd
 from gridrv.oracles import signatures_c0304 as sig
+from gridrv.monitors import roundtrip
 
 PROP = "C03"
 TITLE = "Radial transforms are analytically self-consistent for all parameters"
 KINDS = ["Becke", "LinearFinite", "Identity", "LinearInfinite", "Exp", "Power", "Hyperbolic", "MultiExp", "Knowles", "Handy", "HandyMod"]
 CLS = {k: k + "RTransform" for k in KINDS}
-REQUIRED_FAMILIES = [CLS[k] for k in KINDS] + ["InverseRTransform", "pinned", "boundary", "construction"]
+REQUIRED_FAMILIES = [CLS[k] for k in KINDS] + ["InverseRTransform", "pinned", "boundary", "construction", "clones", "warnings-as-errors", "option-values"]
 REQUIRED_HOOKS = [f"decided:{c}:{m}" for c in list(CLS.values()) + ["InverseRTransform"] for m in ("deriv", "deriv2", "deriv3", "deriv_inverse", "deriv2_inverse", "deriv3_inverse", "roundtrip", "endpoint")]
 BUDGET = {"quick": 900, "thorough": 7200}  # per-worker seconds; expected on 16 idle cores: quick ~10 s, thorough ~3-4 min
 MAX_DISCARD_FRACTION = 0.02
@@ -91,6 +92,11 @@ def cases(tier, seed):
         for kind, p in base:
             cost = 2.0 if kind == "Hyperbolic" else 1.0
             pos = {"pos": True} if rep % 2 else {}  # every second repetition constructs the object positionally
+            fsp = FLAG_CYCLE[(rep + rep // 2) % 4]
+            if fsp and "trim" in p:
+                pos["flagspell"] = fsp  # the trimming flag as np.bool_ / int / np.int64 instead of the literal bool
+            if rep % 3 == 2:
+                pos["clone"] = roundtrip.KINDS[(rep // 3) % 4]  # the object goes through copy / deepcopy / pickle first
             out.append((CLS[kind], {"kind": kind, **p, "rep": rep, **pos}, cost))
             if tier == "thorough" or rep == 0 or p.get("trim", True):
                 out.append(("InverseRTransform", {"kind": kind, **p, "rep": rep, "inv": True, **pos}, cost * 1.2))
@@ -102,6 +108,10 @@ def cases(tier, seed):
     # positional vs keyword construction of every class, both values of every boolean flag, b given / learned
     for kind, p in construction_sets():
         out.append(("construction", {"kind": kind, **p}, 1.0))
+        out.append(("clones", {"kind": kind, **p}, 1.0))
+        out.append(("warnings-as-errors", {"kind": kind, **p}, 1.0))
+        if "trim" in p:
+            out.append(("option-values", {"kind": kind, **p}, 1.0))
     # pinned deterministic witnesses (fixed parameters, both tiers, run first)
     out.append(("pinned", {"kind": "HandyMod", "rmin": 0.0, "m": 3, "trim": True, "fixed": {"rmax": 12.0}}, 1e9))
     out.append(("pinned", {"kind": "HandyMod", "rmin": 0.1, "m": 2.5, "trim": True, "fixed": {"rmax": 9.1}}, 1e9))
@@ -192,12 +202,19 @@ def build(params, rng):
         I.tag += ":" + I.spell
     # the inverse maps of these classes contain a 1/k-th (1/m-th, 1/power-th) root: branch point at the lower end
     I.gfrac = 0.25 if kind in ("Knowles", "Handy", "HandyMod", "Power") else 0.5
+    fs = params.get("flagspell")
+    if fs and "trim_inf" in I.args:
+        # equal-but-not-identical option value: np.bool_(True) / 1 / np.int64(1) must behave exactly as True (same for False)
+        I.args["trim_inf"] = FLAG_SPELLINGS[fs](I.args["trim_inf"])
     I.positional = bool(params.get("pos"))
     if I.positional:
         # ALL documented parameters passed positionally in the documented order (literal table, not inspect)
         I.tf = sig.positional(getattr(rt, CLS[kind]), sig.TRANSFORM_ORDER[CLS[kind]], I.args)
     else:
         I.tf = getattr(rt, CLS[kind])(**I.args)
+    if params.get("clone"):
+        # a copy / deep copy / pickle round trip is still "the transform that was built with these arguments"
+        I.tf = roundtrip.clone(I.tf, params["clone"])
     I.name = CLS[kind] + I.tag
     # interior sample, clustered towards both ends
     u = np.sort(np.cos(np.pi * rng.uniform(0, 1, NPTS)))  # in (-1, 1)
@@ -219,6 +236,9 @@ def build(params, rng):
 
 
 SPELLINGS = ("pyint", "pyfloat", "npfloat64", "npint64")
+FLAG_SPELLINGS = {"npbool": np.bool_, "int": int, "npint64": np.int64, "npint8": np.int8}
+FLAG_CYCLE = (None, "npbool", "int", "npint64")
+GUARDED_UNDER_W_ERROR = {"BeckeRTransform": ("transform", "deriv", "deriv2")}  # methods that carry their own catch_warnings / errstate guard
 
 
 def spelled(args, how):
@@ -891,6 +911,15 @@ def run_case(ctx, family, params):
     if family == "construction":
         _construction(ctx, I)
         return
+    if family == "clones":
+        _clones(ctx, I, params)
+        return
+    if family == "warnings-as-errors":
+        _warnings_as_errors(ctx, I)
+        return
+    if family == "option-values":
+        _option_values(ctx, I)
+        return
     if params.get("bmode") == "learned":
         # the scale point b is learned from the first array the object sees: show it the sample first
         with ctx.guard("forward-evaluates", I.name):
@@ -996,6 +1025,199 @@ def _construction(ctx, I):
             mid = arr[3]
             ctx.check("positional-equals-keyword", "BeckeRTransform.find_parameter", res["p"] == res["k"], sig="outputs-differ:find_parameter")
             ctx.check("positional-binds-documented-order", "BeckeRTransform.find_parameter", abs(res["p"] - (radius - rmin) * (1 - mid) / (1 + mid)) <= 1e-12 * abs(res["p"]), sig="find_parameter!=(radius-rmin)(1-x_mid)/(1+x_mid)")
+
+
+def _outputs(tf, x, ends, grids=()):
+    """Every observable of one transform object: 8 methods on the interior sample + reference end points (array and scalar),
+    and transformed grids.  Exceptions are part of the outcome.  Returns {label: array | ('raised', type name)}."""
+    from gridrv import core
+
+    out = {}
+    xs = np.concatenate([x, np.asarray(ends, dtype=float)]) if len(ends) else x
+    with np.errstate(all="ignore"):
+        r = None
+        for name in sig.METHODS_X + sig.METHODS_R:
+            arg = xs if name in sig.METHODS_X else r
+            if arg is None:
+                continue
+            for mode in ("array", "scalar"):
+                try:
+                    if mode == "array":
+                        v = np.asarray(getattr(tf, name)(np.array(arg, dtype=float)), dtype=float).reshape(-1)
+                    else:
+                        v = np.array([float(np.asarray(getattr(tf, name)(np.float64(a)), dtype=float).reshape(-1)[0]) for a in arg[-4:]])
+                except Exception as exc:  # noqa: BLE001
+                    if not core.is_library_exception(exc):
+                        raise
+                    v = ("raised", type(exc).__name__)
+                out[f"{name}[{mode}]"] = v
+                if name == "transform" and mode == "array" and not isinstance(v, tuple):
+                    r = v[np.isfinite(v)]
+        for label, g in grids:
+            try:
+                ng = tf.transform_1d_grid(g)
+                out[f"transform_1d_grid[{label}]"] = np.concatenate([np.asarray(ng.points, dtype=float), np.asarray(ng.weights, dtype=float), np.asarray(ng.domain, dtype=float)])
+            except Exception as exc:  # noqa: BLE001
+                if not core.is_library_exception(exc):
+                    raise
+                out[f"transform_1d_grid[{label}]"] = ("raised", type(exc).__name__)
+    return out
+
+
+def _diff_outputs(a, b):
+    bad = []
+    for k in a:
+        va, vb = a[k], b.get(k)
+        if isinstance(va, tuple) or isinstance(vb, tuple):
+            if va != vb:
+                bad.append(k)
+        elif vb is None or va.shape != vb.shape or not np.array_equal(va, vb, equal_nan=True):
+            bad.append(k)
+    return bad
+
+
+def _ref_ends(I):
+    if I.kind in ("LinearInfinite", "Exp", "Power"):
+        b = I.args.get("b")
+        return [0.0, float(b) if b is not None else float(I.x.max())]  # learned b = max of the first array = max(I.x)
+    return [e for e, _, _ in endpoints(I) if np.isfinite(e)]
+
+
+def _test_grids(I):
+    import grid.onedgrid as og
+
+    if I.fb == (-1.0, 1.0):
+        return [("GaussLegendre", og.GaussLegendre(6)), ("Trapezoidal-closed", og.Trapezoidal(5))]
+    if I.kind == "Power":
+        return [("UniformInteger", og.UniformInteger(6))]
+    return [("UniformInteger", og.UniformInteger(6)), ("GaussLaguerre", og.GaussLaguerre(5))]
+
+
+def _fresh(I, **override):
+    import grid.rtransform as rt
+
+    return getattr(rt, CLS[I.kind])(**{**I.args, **override})
+
+
+def _option_values(ctx, I):
+    """trim_inf passed as np.bool_, np.True_/np.False_, 0/1, np.int64, np.int8: every output identical to the literal bool."""
+    cname = CLS[I.kind]
+    flag = bool(I.args["trim_inf"])
+    ref = _outputs(_fresh(I, trim_inf=flag), I.x, _ref_ends(I), _test_grids(I))
+    spell = {"np.bool_": np.bool_(flag), "np.True_/np.False_": (np.True_ if flag else np.False_), "int": int(flag), "np.int64": np.int64(flag), "np.int8": np.int8(flag), "np.uint8": np.uint8(flag)}
+    for label, val in spell.items():
+        res = {}
+        with ctx.guard("option-value-equals-literal-bool", cname):
+            res["tf"] = _fresh(I, trim_inf=val)
+        if "tf" not in res:
+            continue
+        got = _outputs(res["tf"], I.x, _ref_ends(I), _test_grids(I))
+        bad = _diff_outputs(ref, got)
+        ctx.check("option-value-equals-literal-bool", cname, not bad, sig=f"trim_inf={'on' if flag else 'off'}-as-{label}:differs-from-literal:" + ",".join(sorted({b.split('[')[0] for b in bad})), detail={"outputs": bad[:8], "args": _note(I)})
+    ctx.hit("decided:option-values")
+
+
+def _clones(ctx, I, params):
+    """copy.copy / copy.deepcopy / pickle round trips behave identically, including a learned / remembered scale point b."""
+    cname = CLS[I.kind]
+    ends, grids = _ref_ends(I), _test_grids(I)
+    learned = params.get("bmode") == "learned"
+    x2 = I.x * 1.7 if I.fb != (-1.0, 1.0) else I.x
+    for kind in roundtrip.KINDS:
+        for when in ("fresh", "used"):
+            orig = _fresh(I)
+            res = {}
+            with ctx.guard("clone-equals-original", f"{cname}:{kind}"):
+                if when == "used":
+                    orig.transform(I.x)  # b learned (b-scaled maps with b=None) before cloning
+                res["c"] = roundtrip.clone(orig, kind)
+            if "c" not in res:
+                continue
+            c = res["c"]
+            if when == "used" and learned:
+                ctx.check("clone-equals-original", f"{cname}:{kind}", c.b is not None and float(c.b) == float(orig.b), sig="learned-b-not-carried-by-the-clone", detail={"b_orig": orig.b, "b_clone": c.b})
+            a = _outputs(orig, I.x, ends, grids)
+            b = _outputs(c, I.x, ends, grids)
+            bad = _diff_outputs(a, b)
+            # second, larger array: a remembered b must be kept by both (no re-learning)
+            a2 = _outputs(orig, x2, (), ())
+            b2 = _outputs(c, x2, (), ())
+            bad += ["second-array:" + k for k in _diff_outputs(a2, b2)]
+            attrs = [n for n in sig.TRANSFORM_ATTRS[cname] if not sig._same_value(getattr(orig, n), getattr(c, n))]
+            ctx.check("clone-equals-original", f"{cname}:{kind}", not bad and not attrs, sig=f"{when}-object:" + ("attributes-differ:" + ",".join(attrs) if attrs else "outputs-differ:" + ",".join(sorted({k.split('[')[0] for k in bad}))), detail={"outputs": bad[:8], "args": _note(I)})
+    # the wrapper
+    import grid.rtransform as rt
+
+    inner = _fresh(I)
+    inner.transform(I.x)
+    w = rt.InverseRTransform(inner)
+    with np.errstate(all="ignore"):
+        r = np.asarray(inner.transform(I.x), dtype=float).reshape(-1)
+    r = r[np.isfinite(r) & (r > I.gb[0]) & (r < I.gb[1])]
+    if r.size:
+        for kind in roundtrip.KINDS:
+            res = {}
+            with ctx.guard("clone-equals-original", f"InverseRTransform({cname}):{kind}"):
+                res["c"] = roundtrip.clone(w, kind)
+            if "c" in res:
+                bad = _diff_outputs(_outputs(w, r, (), ()), _outputs(res["c"], r, (), ()))
+                ctx.check("clone-equals-original", f"InverseRTransform({cname}):{kind}", not bad, sig="outputs-differ:" + ",".join(sorted({k.split('[')[0] for k in bad})))
+    ctx.hit("decided:clones")
+
+
+def _warnings_as_errors(ctx, I):
+    """With warnings turned into errors the methods that carry their own guard (literal table GUARDED_UNDER_W_ERROR) still return the
+    documented values at the reference end points; everything else that raises there is COUNTED (observation), not decided."""
+    import warnings
+
+    cname = CLS[I.kind]
+    tf = _fresh(I)
+    if I.args.get("b", 0) is None:
+        tf.transform(I.x)
+    ends = _ref_ends(I)
+    guarded = GUARDED_UNDER_W_ERROR.get(cname, ())
+    calls = []
+    for name in sig.METHODS_X:
+        for e in ends:
+            calls.append((name, e, "array", lambda n=name, e=e: np.asarray(getattr(tf, n)(np.array([e, e])), dtype=float).reshape(-1)))
+            calls.append((name, e, "scalar", lambda n=name, e=e: np.asarray(getattr(tf, n)(np.float64(e)), dtype=float).reshape(-1)))
+    for label, g in _test_grids(I):
+        def run(g=g):
+            ng = tf.transform_1d_grid(g)
+            return np.concatenate([np.asarray(ng.points, dtype=float), np.asarray(ng.weights, dtype=float), np.asarray(ng.domain, dtype=float)])
+
+        calls.append(("transform_1d_grid", label, "grid", run))
+    for name, e, mode, fn in calls:
+        decide = name in guarded or (name == "transform_1d_grid" and guarded)
+        with warnings.catch_warnings():
+            warnings.simplefilter("ignore")
+            with np.errstate(all="warn"):
+                try:
+                    quiet = fn()
+                except Exception as exc:  # noqa: BLE001 - e.g. ZeroDivisionError of the wrapper: same under both filters
+                    quiet = ("raised", type(exc).__name__)
+        with warnings.catch_warnings():  # restores the worker's filters on exit
+            warnings.simplefilter("error")
+            with np.errstate(all="warn"):
+                try:
+                    loud = fn()
+                except Warning as wexc:
+                    loud = ("warning", type(wexc).__name__, str(wexc)[:60])
+                except Exception as exc:  # noqa: BLE001
+                    loud = ("raised", type(exc).__name__)
+        where = f"{cname}.{name}"
+        if isinstance(loud, tuple) and loud[0] == "warning":
+            if decide:
+                ctx.check("guarded-under-W-error", where, False, sig=f"raises-{loud[1]}-under-W-error-at-{'grid' if mode == 'grid' else 'end-point'}", detail={"point": e if mode != "grid" else str(e), "mode": mode, "warning": loud[2], "args": _note(I)})
+            else:
+                ctx.count(f"raises-under-W-error(not-guarded-by-the-library):{where}")
+            continue
+        if decide:
+            same = (isinstance(quiet, tuple) and quiet == loud) or (not isinstance(quiet, tuple) and not isinstance(loud, tuple) and np.array_equal(quiet, loud, equal_nan=True))
+            ctx.check("guarded-under-W-error", where, same, sig="value-under-W-error-differs-from-default-filters", detail={"point": e if mode != "grid" else str(e), "mode": mode})
+            ctx.hit("decided:warnings-as-errors")
+    if not guarded:
+        ctx.trivial()
 
 
 def _secondary(ctx, I, res):
